@@ -24,7 +24,7 @@ ASSUMPTIONS = ["model.predict on all points is the reference for the per-design 
 N = {"quick": 50, "thorough": 6000}
 REQUIRE = {"quick": {"updated_checked": 3000, "untouched_checked": 3000, "single_design_updates": 150,
                      "intersect_checked": 500, "gp_updates": 60, "single_design_gp_updates": 20,
-                     "invariant_evals": 5000, "adaptive_updates": 50, "direct_intersect_events": 500, "inrun_runs": 20}}
+                     "invariant_evals": 5000, "adaptive_updates": 50, "direct_intersect_events": 500, "inrun_runs": 20, "huge_updates": 6}}
 TIMEOUT = {"quick": 900, "thorough": 3600}
 
 
@@ -245,9 +245,37 @@ def inrun(mon, rng, real=False):
     mon.event(case_hash("inrun", case["seed"]), True, f"inrun/{variant}")
 
 
+def huge_space(mon, rng):
+    """1100-3000 designs, more than 1024 of them updated in one call with one scale row PER DESIGN (chunked / sliced prediction
+    paths only exist above a size threshold — seeded/W03-design-space-update-chunked-scale-rows)"""
+    from vopy.design_space import FixedPointsDesignSpace
+
+    d, m = int(rng.integers(1, 4)), int(rng.integers(2, 4))
+    n = int(rng.integers(1100, 3000))
+    ell = bool(rng.random() < 0.4)
+    model = StubModel(rng, d, m, bool(rng.random() < 0.5))
+    ds = FixedPointsDesignSpace(rng.random((n, d)), m, confidence_type="hyperellipsoid" if ell else "hyperrectangle")
+    label = f"fixed/huge/{'ell' if ell else 'rect'}"
+    patching.UpdateWatch(ds, mon, label)
+    plans = [None, [int(i) for i in rng.permutation(n)[: int(rng.integers(1030, n))]], None]
+    for s, idx in enumerate(plans):
+        nidx = n if idx is None else len(idx)
+        scale = 10 ** rng.uniform(-2, 1, size=(nidx, m)) if (s < 2 and not ell) else np.array(float(10 ** rng.uniform(-1, 1)))
+        model.t += 0.3
+        try:
+            ds.update(model, scale, idx)
+        except Exception as e:
+            mon.violation(f"update:crash:{type(e).__name__}", f"{label}: {e!r} ({nidx} indices, scale shape {np.shape(scale)})", {"n": n, "nidx": nidx})
+            return
+        mon.count("huge_updates")
+        mon.event(case_hash(label, n, s), True, label)
+
+
 def shard(mon, tier, rng, shard_no, nshards):
     has_ic = patching.install_region_invariant()
     mon.notes["icontract"] = has_ic
+    if tier == "thorough" or shard_no % 4 == 1:
+        huge_space(mon, rng)
     n = max(3, N[tier] // nshards)
     kinds = ["stub", "stub-full", "empirical", "independent", "correlated", "modellist"]
     for it in range(n):
